@@ -99,6 +99,12 @@ StateOK(st, qs, order, s) ==
                    LET nm == s.names[t] want == IF order = 0 THEN FZ ELSE Grad(qs, qv, e, R, nm) IN
                    FClose(s.g[p][t], want, GradScale(qs, qv, e, R, nm)))
              /\ (order > 0 => \A v \in 1..Len(s.vars[p]) : \E t \in 1..Len(s.names) : s.names[t] = s.vars[p][v])   \* no stray variable names
+     \* a Hessian read back by the rate's own names in reverse order is the same matrix re-indexed (a read-back copies)
+     /\ (Sens /\ "hr" \in DOMAIN s) => \A x \in 1..Len(s.hr) :
+          LET nm == s.hr[x].names
+              NmPos(a) == CHOOSE t \in 1..Len(s.names) : s.names[t] = nm[a]
+          IN /\ \A a \in 1..Len(nm) : \E t \in 1..Len(s.names) : s.names[t] = nm[a]
+             /\ \A a, b \in 1..Len(nm) : s.hr[x].m[a][b] = s.h[x][NmPos(a)][NmPos(b)]
      /\ Sens => \A x \in 1..Len(s.hp) :
           LET p == s.hp[x] i == ((p - 1) \div n) + 1 j == ((p - 1) % n) + 1
               e == st.fx[i][j] R == RateVal(qv, e)
